@@ -60,6 +60,19 @@ def c07_runs(tier):
 
 
 PROPS = {
+    "C05": {
+        "engine": "rapidcheck",
+        "technique": "reference-model comparison: reference evaluation of (handler signature, parameter list) with a reader x data-type compatibility table, compared event by event (handler entry, delivered values, error callbacks) with the real parser",
+        "level": "random handler signatures of 0..4 readers of every kind (mandatory/optional, arrays of 1..4, text buffers of 0..30 bytes) that "
+                 "succeed, fail silently or raise their own error, against parameter lists of 0..5 items of every data type (compatible, "
+                 "missing, surplus, wrong type, suffixed, unknown suffix, unknown mnemonic) with random 488.2 white space around the commas, "
+                 "malformed fragments and trailing commas, in 1..3-unit messages with exact-fit and roomy input buffers",
+        "level_note": "delivered values are compared exactly except where the documentation leaves them open (real number to an integer/bool reader, negative to an unsigned reader); a suffixed number given to Bool/Choice accepts -104 or -138",
+        "design_ref": "DESIGN.md section 4, C05",
+        "runs": simple("c05", cfgs=("default", "noinfo", "heap")),
+        "rule": "case = (signatures, message), distinct by hash; non-trivial = a unit with >= 2 parameters, or >= 1 expected error, or malformed data",
+        "assumptions": COMMON_ASSUME + ["handler policy of the fixture: readers in order, a failing reader ends the handler with SCPI_RES_ERR unless optional and absent"],
+    },
     "C06": {
         "engine": "rapidcheck",
         "technique": "reference-model comparison: independent renderer of every result type and of the response framing, byte-exact against captured write()/flush() calls, over rapidcheck-generated handler scripts and messages",
